@@ -192,6 +192,17 @@ def cases(rng, tier):
                 if lo > hi:
                     lo, hi = hi, lo
                 yield ("c05_iprange_to_cidrs", [[ver, lo, w], [ver, hi, w]], "range_wide")
+        # intervals that just cross an aligned boundary: lo aligned to 2^k, hi a little past lo + 2^k (and mirrored)
+        for k in range(0, w):
+            for _ in range(2 if quick else 12):
+                base = (rng.getrandbits(w) >> (k + 1) << (k + 1)) if k + 1 < w else 0
+                d = rng.choice([0, 1, 2, 3, rng.randrange(1 << min(k, 20)) if k else 0])
+                lo, hi = base, min(mx, base + (1 << k) + d)
+                yield ("c05_iprange_to_cidrs", [[ver, lo, w], [ver, hi, w]], "range_cross")
+                lo2, hi2 = max(0, base + (1 << k) - 1 - d), min(mx, base + (2 << k) - 1)
+                if lo2 <= hi2:
+                    yield ("c05_iprange_to_cidrs", [[ver, lo2, w], [ver, hi2, w]], "range_cross")
+                yield ("c05_cidr_merge", [[["n", ver, base, w - k], ["n", ver, min(mx, base + (1 << k)), w - min(k, 2)]]], "merge_cross")
         for lo, hi in [(0, mx), (0, 0), (mx, mx), (0, mx - 1), (1, mx), (1, mx - 1), (mx - 1, mx), (0, 1)]:
             yield ("c05_iprange_to_cidrs", [[ver, lo, w], [ver, hi, w]], "range_edge")
         # start / end given as networks (first of start .. last of end)
@@ -241,3 +252,18 @@ def cases(rng, tier):
         yield ("c05_cidr_merge", [[["n", ver, 0, 0]]], "merge_edge")
         yield ("c05_cidr_merge", [[["n", ver, 0, 1], ["n", ver, 2 ** (w - 1), 1]]], "merge_edge")
         yield ("c05_cidr_merge", [[["r", ver, 0, 2 ** w - 1], ["n", ver, 5, w]]], "merge_edge")
+
+
+# ---- object-lifecycle checks (harness/lifecycle.py): objects with a history behave like fresh ones, results do not
+# alias operands, failed mutators change nothing.  The functional model has no hidden state: its answer is "no discrepancy".
+from harness import lifecycle as _life
+IMPL.update(_life.IMPL)
+ORACLE.update(_life.ORACLE)
+EXACT = tuple(EXACT) + ("life",)
+RULE = RULE + " | lifecycle: observe-mutate-observe vs a fresh object, aliasing of results, failure atomicity (glob, net, range)"
+_cases_without_life = cases
+
+
+def cases(rng, tier):
+    yield from _cases_without_life(rng, tier)
+    yield from _life.cases(rng, tier, {'glob', 'net', 'range'})
